@@ -208,8 +208,7 @@ static URI_INLINE UriBool URI_FUNC(SegmentContainsColon)(
  * - the first segment of a relative-path reference must neither be empty
  *   (the path would become absolute) nor contain a colon (it would be read
  *   as a scheme).
- * One "." segment in front protects against that; a leading "." segment
- * that was kept earlier but is not needed any more is dropped.
+ * One "." segment in front protects against that.
  * NOTE: All non-empty path segment texts are owned when this is called. */
 static URI_INLINE UriBool URI_FUNC(FixPathAfterDotRemoval)(URI_TYPE(Uri) * uri,
 		UriBool relative, UriMemoryManager * memory) {
@@ -220,20 +219,6 @@ static URI_INLINE UriBool URI_FUNC(FixPathAfterDotRemoval)(URI_TYPE(Uri) * uri,
 
 	if ((head == NULL) || URI_FUNC(IsHostSet)(uri)) {
 		return URI_TRUE;
-	}
-
-	if (relative && (head->next != NULL)
-			&& ((head->text.afterLast - head->text.first) == 1)
-			&& (head->text.first[0] == _UT('.'))) {
-		URI_TYPE(PathSegment) * const next = head->next;
-		if (((next->text.first == next->text.afterLast) && (next->next != NULL))
-				|| URI_FUNC(SegmentContainsColon)(next)) {
-			return URI_TRUE; /* Still essential */
-		}
-		memory->free(memory, (URI_CHAR *)head->text.first);
-		memory->free(memory, head);
-		uri->pathHead = next;
-		head = next;
 	}
 
 	if (head->text.first != head->text.afterLast) {
